@@ -363,6 +363,19 @@ impl<'a> ExecutionEngine<'a> {
         Ok(
             match self.statement.join_clause() {
                 Some(join_clause) => {
+                    // A join column that the queried table lacks is an error also when no row ever reaches the join
+                    let from = match self.statement {
+                        Statement::Select(select_statement) => Some(&select_statement.from),
+                        Statement::Aggregate(aggregate_statement) => Some(&aggregate_statement.from),
+                        _ => None
+                    };
+
+                    if let Some(from) = from {
+                        if self.get_table(from)?.index_for(&join_clause.joiner_column).is_none() {
+                            return Err(ExecutionError::ColumnNotFound(join_clause.joiner_column.clone()));
+                        }
+                    }
+
                     self.joined_table_data = Some(JoinedTableData::execute(self.tables, running.clone(), join_clause)?);
                 },
                 None => {
